@@ -269,6 +269,22 @@ func (x *explorer) explore(base Cfg, which string) {
 					continue
 				}
 				if seen[k] {
+					// The target state is known, but this TRANSITION (this operation applied
+					// to this source view) still has to be validated on the implementation:
+					// two paths with equal headers may have laid out the private storage
+					// differently (a seeded change in sparse T() of a row slice was missed
+					// because only the first path into each state was ever executed).
+					if c.Mine(x.trans) {
+						cfg := base
+						cfg.Path = n.path
+						f, herr := readsVsModel(cfg)
+						if herr != "" {
+							c.HarnessError(herr)
+						}
+						x.report(cfg, which, f)
+						c.Eval(1)
+						c.Count("transitions_into_known_states_validated", 1)
+					}
 					continue
 				}
 				seen[k] = true
